@@ -1,6 +1,7 @@
 import Hgxv.Model.Wire
 import Hgxv.Model.C08
 import Hgxv.Model.C08Hist
+import Hgxv.Model.C08Visit
 /-! Line protocol for C08.  State: current Hypergraph (nodes, hyperedges), current generic keyed container
 (Temporal / Multiplex: one member list per record) and current directed hypergraph.
 Filter token `<f>`: `n` (none) | `s<int>` (size=) | `o<int>` (order=).
@@ -20,7 +21,11 @@ History model (`C08.Hist`, several Hypergraph objects, object index `i`):
   `hset i <edges natss> <nodes>`          -> `ok`: object i (a NEW object when i = number of objects) holds the given listing
                                              (product of a loader / generator / filter; listing taken after a raised call)
   `hshow i`                               -> `<hyperedges sorted>|<nodes sorted>` of object i
-  `huse i`                                -> `ok`: the queries above now speak about object i -/
+  `huse i`                                -> `ok`: the queries above now speak about object i
+`utils/visits.py` in full (`C08Visit`): kind `b` (`_bfs`) | `d` (`_dfs`), depth token `n` (max_depth=None) | `<int>`:
+  `vis <b|d> x <depth> <f>`               -> sorted visited set | `rej` (start is not a node)
+  `vist <b|d> x <depth> <keys> <lists natss>` -> sorted visited set of the same loop run on the recorded table
+                                             `keys[i] -> lists[i]` of `get_neighbors` answers (in iteration order) -/
 open Wire C08
 
 structure St where
@@ -53,6 +58,9 @@ def showOBool : Option Bool → String
 def enumFrom {α} : Nat → List α → List (Nat × α)
   | _, [] => []
   | i, a :: t => (i, a) :: enumFrom (i + 1) t
+
+def depth? (s : String) : Option (Option Int) :=
+  if s = "n" then some none else s.toInt?.map some
 
 def query (s : St) (f : Filt) : List String → String
   | ["deg", x] => showONat (degree? s.nodes s.es x.toNat! f)
@@ -118,6 +126,12 @@ def step (s : St) : List String → St × String
   | ["huse", i] => match i.toNat?.bind (fun i => s.hist[i]?) with
     | some c => ({ s with nodes := c.nodes, es := c.es }, "ok")
     | none => (s, "rej")
+  | ["vis", k, x, d, f] => match depth? d, x.toNat?, filt? f with
+    | some md, some x, some f => (s, showOSet (visitFrom s.nodes s.es f md (k == "d") x))
+    | _, _, _ => (s, "bad-op")
+  | ["vist", k, x, d, keys, lists] => match depth? d, x.toNat?, nats? keys, natss? lists with
+    | some md, some x, some ks, some ls => (s, showNats (sortNats (visitTab (ks.zip ls) md (k == "d") x)))
+    | _, _, _, _ => (s, "bad-op")
   | ["load", es, nodes] =>
     match natss? es, nats? nodes with
     | some e, some n => ({ s with nodes := n, es := e }, "ok")
